@@ -143,21 +143,38 @@ pub fn run(seed: u64, n: usize, out: &str, only: Option<usize>) {
         fam[dt[0] as usize] += 1;
         let ds = dt.iter().map(|x| format!("{:x}", x)).collect::<Vec<_>>().join(",");
         let ss = script.iter().map(|x| format!("{:x}", x)).collect::<Vec<_>>().join(",");
+        let wseed = r.next().to_string();
         let mut child = Command::new(&exe)
-            .args(["c13worker", &ds, &ss, &r.next().to_string(), &count.to_string()])
+            .args(["c13worker", &ds, &ss, &wseed, &count.to_string()])
             .env("VHARNESS_PANIC", "1")
             .stdout(Stdio::piped())
             .stderr(Stdio::piped())
             .spawn()
             .unwrap();
-        let t0 = Instant::now();
-        let mut status = None;
-        while t0.elapsed() < Duration::from_millis(2500) {
-            if let Some(s) = child.try_wait().unwrap() {
-                status = Some(s);
-                break;
+        let wait = |child: &mut std::process::Child, limit: Duration| {
+            let t0 = Instant::now();
+            while t0.elapsed() < limit {
+                if let Some(s) = child.try_wait().unwrap() {
+                    return Some(s);
+                }
+                std::thread::sleep(Duration::from_micros(300));
             }
-            std::thread::sleep(Duration::from_micros(300));
+            None
+        };
+        let mut status = wait(&mut child, Duration::from_millis(2500));
+        if status.is_none() && !binv_class(&d) {
+            // outside the known class a timeout is only believed when it repeats with a generous
+            // limit (a loaded machine must not produce a finding)
+            let _ = child.kill();
+            let _ = child.wait();
+            child = Command::new(&exe)
+                .args(["c13worker", &ds, &ss, &wseed, &count.to_string()])
+                .env("VHARNESS_PANIC", "1")
+                .stdout(Stdio::piped())
+                .stderr(Stdio::piped())
+                .spawn()
+                .unwrap();
+            status = wait(&mut child, Duration::from_secs(30));
         }
         let desc = format!("dist={:?} rng_prefix={:x?}", d, script);
         let mut outs = String::new();
@@ -174,7 +191,7 @@ pub fn run(seed: u64, n: usize, out: &str, only: Option<usize>) {
                     }
                 } else {
                     viol += 1;
-                    writeln!(meta, "violation case={} sampling did not return within 2.5 s: {}", i, desc).unwrap();
+                    writeln!(meta, "violation case={} sampling did not return (2.5 s, then 30 s on a second attempt): {}", i, desc).unwrap();
                 }
             }
             Some(s) => {
